@@ -1,0 +1,7 @@
+//go:build verif
+
+package bqueue
+
+// DefaultCacheSize under the verif build tag: four request windows of
+// payload.MaxHashesCount, as without the tag.
+const DefaultCacheSize = 32
